@@ -36,7 +36,7 @@ var defaultBlackhole = []string{
 // unless the package is black-holed (then reference-like globals are Dummy).
 var defaultInitAllow = []string{
 	"github.com/bbva/qed", "github.com/google/btree", "github.com/pkg/errors",
-	"errors", "io", "bytes", "strings", "strconv", "sort", "math", "math/bits",
+	"io", "bytes", "strings", "strconv", "sort", "math", "math/bits",
 	"encoding/binary", "encoding/hex", "container/list", "container/heap", "unicode/utf8",
 }
 
